@@ -22,7 +22,7 @@ Lemma veq_f_S : forall n a b,
   veq_f (S n) a b =
   match a, b with
   | VLeaf x, VLeaf y => leaf_eqb x y
-  | VNode s k1, VNode t k2 => tag_eqb s t && forall2b (veq_f n) k1 k2
+  | VNode s k1, VNode t k2 => node_veq (veq_f n) s k1 t k2
   | VUnion l1, VUnion l2 => forall2b (veq_f n) l1 l2 || set_eq (E_f n) l1 l2
   | _, _ => false
   end.
@@ -36,9 +36,9 @@ Proof.
   destruct x as [l|t k|vs], y as [l'|t' k'|vs']; try discriminate; try reflexivity.
   - destruct l, l'; simpl in H; try discriminate; try reflexivity.
     simpl. apply N.eqb_eq in H. now subst.
-  - apply andb_true_iff in H. destruct H as [Ht Hk].
+  - destruct t, t'; try reflexivity; try (unfold node_veq in H; simpl in H; discriminate H).
+    unfold node_veq in H. apply andb_true_iff in H. destruct H as [Ht Hk].
     assert (L := forall2b_length _ _ _ Hk).
-    destruct t, t'; simpl in Ht; try discriminate; try reflexivity.
     destruct k as [|a [|b r]], k' as [|a' [|b' r']]; simpl in L; try discriminate; try reflexivity.
     simpl in Hk. apply andb_true_iff in Hk. simpl. apply IH. tauto.
 Qed.
@@ -80,13 +80,48 @@ Proof.
   - left. eapply dedup_subset. exact Hx.
 Qed.
 
+Lemma keyed_incl_ext : forall {K} (f g : val -> val -> bool) (keq : K -> K -> bool) l1 l2,
+  (forall p q, In p l1 -> In q l2 -> f (snd p) (snd q) = g (snd p) (snd q)) ->
+  keyed_incl f keq l1 l2 = keyed_incl g keq l1 l2.
+Proof.
+  intros K f g keq l1 l2 H. unfold keyed_incl.
+  apply forallb_ext_in'. intros p Hp. apply existsb_ext_in'. intros q Hq. now rewrite (H p q Hp Hq).
+Qed.
+
+Lemma in_combine_snd : forall {K} (ks : list K) (ts : list val) p, In p (combine ks ts) -> In (snd p) ts.
+Proof. intros K ks ts [k v] H. simpl. eapply in_combine_r. exact H. Qed.
+
+Lemma in_skipn : forall {A} n (l : list A) x, In x (skipn n l) -> In x l.
+Proof. intros A n l x H. rewrite <- (firstn_skipn n l). apply in_or_app. now right. Qed.
+
+Lemma in_firstn : forall {A} n (l : list A) x, In x (firstn n l) -> In x l.
+Proof. intros A n l x H. rewrite <- (firstn_skipn n l). apply in_or_app. now left. Qed.
+
+Lemma node_veq_ext : forall (f g : val -> val -> bool) s k1 t k2,
+  (forall x y, In x k1 -> In y k2 -> f x y = g x y) ->
+  node_veq f s k1 t k2 = node_veq g s k1 t k2.
+Proof.
+  intros f g s k1 t k2 H. unfold node_veq.
+  destruct s, t; try (f_equal; apply forall2b_ext; exact H).
+  - (* TypedDict *)
+    destruct k1 as [|va1 ts1], k2 as [|va2 ts2]; try reflexivity.
+    f_equal. rewrite (H va1 va2) by (left; reflexivity). f_equal; [f_equal|].
+    + apply keyed_incl_ext. intros p q Hp Hq. apply H; right; eapply in_combine_snd; eauto.
+    + apply forall2b_ext. intros x y Hx Hy. apply H; right; eapply in_skipn; eauto.
+  - (* Callable *)
+    f_equal; [f_equal; [f_equal|]|].
+    + apply forall2b_ext. intros x y Hx Hy. apply H; eapply in_firstn; eauto.
+    + apply keyed_incl_ext. intros p q Hp Hq. apply H; eapply in_skipn; eapply in_combine_snd; eauto.
+    + apply forall2b_ext. intros x y Hx Hy. apply H; eapply in_skipn; eauto.
+Qed.
+
 Lemma veq_f_stable : forall n a b, depth a <= n -> depth b <= n -> veq_f (S n) a b = veq_f n a b.
 Proof.
   induction n as [|n IH]; intros a b Da Db.
   - pose proof (depth_pos a). lia.
   - rewrite (veq_f_S (S n)), (veq_f_S n).
     destruct a as [l|t k|vs], b as [l'|t' k'|vs']; try reflexivity.
-    + simpl in Da, Db. f_equal. apply forall2b_ext. intros x y Hx Hy. apply IH.
+    + simpl in Da, Db. apply node_veq_ext. intros x y Hx Hy. apply IH.
       * pose proof (depth_kids _ _ Hx). lia.
       * pose proof (depth_kids _ _ Hy). lia.
     + simpl in Da, Db.
